@@ -48,6 +48,12 @@ class Tr(qlayer.Tr):
             return f"(qneg {q})" if q else None
         if isinstance(e, ast.Name) and env.get(e.id, (None,))[0] == 'q':
             return env[e.id][1]
+        # Decimal(x, 0): decimalfp rounding to an integer, default mode
+        if isinstance(e, ast.Call) and isinstance(e.func, ast.Name) and e.func.id == 'Decimal' \
+                and len(e.args) == 2 and not e.keywords and isinstance(e.args[1], ast.Constant) \
+                and type(e.args[1].value) is int and e.args[1].value == 0:
+            x = self.q_of(e.args[0], env)
+            return f"(dec_round0 dm {x})" if x else None
         # builtin round(<amount of the receiver>, n_digits)
         if isinstance(e, ast.Call) and isinstance(e.func, ast.Name) and e.func.id == 'round' \
                 and len(e.args) == 2 and not e.keywords \
@@ -160,6 +166,7 @@ Definition frac_quantize (dm : mode) (a nq : Q) (rm : option mode) : res Q :=
   | Some r => Ok r
   | None => Err EValueError
   end.
+Definition dec_round0 (dm : mode) (x : Q) : Q := qz (rnd_ref dm x).
 Definition py_round (dm : mode) (is_dec : bool) (a : Q) (nd : Z) : Q :=
   round_to_quantum (if is_dec then dm else MHEVEN) a (pow10 (- nd)).
 (* quantity.utils.sum over quantities, adding with the TRANSLATED __add__ *)
@@ -380,9 +387,45 @@ class Alloc:
         fail(s, "allocate: loop statement")
 
 
+def gen_new(tree):
+    """the end of Quantity.__new__, after the raw instance has been made:
+           quantum = unit.quantum
+           if quantum is not None:
+               amnt = <E>
+           qty._amount = amnt
+           qty._unit = unit
+           return qty
+    -> the constructor's quantisation, the single choke point of C05"""
+    m = find_method(tree, 'Quantity', '__new__')
+    idx = [i for i, s in enumerate(m.body)
+           if ast.unparse(s).split('#')[0].strip() == 'qty = super().__new__(cls)']
+    if len(idx) != 1:
+        raise Unsupported("Quantity.__new__: `qty = super().__new__(cls)` not found once")
+    tail = m.body[idx[0] + 1:]
+    if len(tail) != 5 or ast.unparse(tail[0]) != 'quantum = unit.quantum' \
+            or [ast.unparse(x) for x in tail[2:]] != ['qty._amount = amnt', 'qty._unit = unit',
+                                                      'return qty']:
+        raise Unsupported("Quantity.__new__: the statements after the raw instance is made are not "
+                          "`quantum = unit.quantum; if ...; qty._amount = amnt; qty._unit = unit; "
+                          "return qty`: " + '; '.join(ast.unparse(x) for x in tail)[:200])
+    c = tail[1]
+    if not (isinstance(c, ast.If) and not c.orelse and len(c.body) == 1
+            and isinstance(c.body[0], ast.Assign) and ast.unparse(c.body[0].targets[0]) == 'amnt'):
+        fail(c, "__new__: quantisation")
+    tr = Tr(Fn('Quantity', '__new__', [], 'qty', 'mk_qty_impl'))
+    env = {'amnt': ('q', 'amnt'), 'unit': ('unit', 'unit'), 'quantum': ('optq', '(u_quantum unit)')}
+
+    def then_k(e2):
+        q = tr.q_of(c.body[0].value, dict(e2, quantum=e2['quantum'])) or fail(c, "__new__: amount")
+        return f"mkQty {q} unit"
+    body = tr.branch(c.test, env, then_k, lambda e2: "mkQty amnt unit")
+    return ("(* Quantity.__new__, after the raw instance has been made *)\n"
+            "Definition mk_qty_impl (dm : mode) (amnt : Q) (unit : unit) : qty :=\n" + body + ".\n")
+
+
 def generate(path):
     tree = ast.parse(open(path, encoding='utf-8').read())
-    out = [PRELUDE]
+    out = [PRELUDE, gen_new(tree)]
     for fn, defaults in FUNCS:
         m = find_method(tree, fn.cls, fn.name)
         names = [a.arg for a in m.args.args]
